@@ -320,3 +320,17 @@ package shard
 //@ func (*Shard).DeleteContainer
 //@   property C14
 //@   ensures [success_only_in_a_writable_mode] err == nil ==> writableMode() || s.info.Mode == mode.ReadWrite
+
+// ---- C43 (reads in the metabase-less modes): in DEGRADED and DEGRADED_READ_ONLY the shard
+// serves reads from the write-cache and the blobstor without metadata; an error of the
+// metabase look-up ("metabase is in a degraded mode") fails a read only in a mode that has a
+// metabase.
+//@ ghost pred modeHasNoMetabase() bool
+//@ callrule c43_mode_without_metabase in (*Shard).fetchObjectData
+//@   property C43
+//@   callee (mode.Mode).NoMetabase
+//@   pureeffect
+//@   defines result == modeHasNoMetabase()
+//@ func (*Shard).fetchObjectData
+//@   property C43
+//@   ensures [metabase_error_fails_the_read_only_in_a_mode_with_a_metabase] res1 != nil && resultOf(res1, "(*metabase.DB).Exists") ==> !modeHasNoMetabase()
